@@ -205,6 +205,7 @@ type stringCache struct {
 }
 
 func (c *stringCache) lookup(key string) string {
+	verifYield("cache:lookup")
 	if key == "" || key == "unset" {
 		return ""
 	}
